@@ -206,10 +206,11 @@ class _GitTransaction:
         ] = weakref.WeakValueDictionary()
 
     def __enter__(self) -> cabc.Mapping[str, t.Any]:
+        # The parent of the new commit is the commit that the handler's
+        # work tree is based on. (The handler's ``revision`` may name a
+        # branch that is not the one being committed to.)
         self.__old_sha = (
-            self.__handler._git("rev-parse", self.__handler.revision)
-            .decode("ascii")
-            .strip()
+            self.__handler._git("rev-parse", "HEAD").decode("ascii").strip()
         )
         if self.__handler._transaction is not None:
             raise RuntimeError("Another transaction is already open")
